@@ -13,7 +13,7 @@ LEAN_MODEL_MODULES = ["OsmoVerif.Model.Mframe", "OsmoVerif.Spec.Mframe", "OsmoVe
 ASSUMPTIONS = [
     "theorems are about OsmoVerif.Model.Mframe (hand models of mframe_schedule_set's trigger arithmetic and of the mframe_schedule() task loop with the C widths; of l1sched_mframe_layout(); of the frames[fn % period] lookup of sched_trx.c) over tables regenerated on every run: every mf_*[] table, sched_set_for_task[], SCHEDULE_AHEAD/LATENCY, MF_F_*; layouts[] and every frame_*[] table with the enumerator names",
     "the only hand-written bridge is OsmoVerif.Spec.Mframe: firmware task <-> (channel combination, logical channel, SACCH channel, directions, valid timeslots), written from TS 45.002 clause 7; direction served by each firmware sched set (nb_sched_set = Downlink block, nb_sched_set_ul = Uplink block, tch_sched_set / tch_a_sched_set = one burst received and transmitted in the same frame, tch_d_sched_set and neigh_pm_sched_set own no frame) is part of that Spec",
-    "modelled, not verified: the first burst of a set handed to tdma_schedule_set(frame_offset = SCHEDULE_AHEAD - SCHEDULE_LATENCY, ...) at tick fn is on the air in frame fn + frame_offset + SCHEDULE_LATENCY (the contents of the sched sets in prim_rx_nb.c / prim_tx_nb.c / prim_tch.c and the DSP latency are outside the anchored code)",
+    "modelled, not verified: the first burst of a set handed to tdma_schedule_set(frame_offset = SCHEDULE_AHEAD - SCHEDULE_LATENCY, ...) at tick fn is on the air in frame fn + frame_offset + 1 (Calypso DSP executes a command one frame after it is written to the API page; the contents of the sched sets in prim_rx_nb.c / prim_tx_nb.c / prim_tch.c are outside the anchored code); SCHEDULE_LATENCY must equal that hardware latency for theorem trigger_air_frame",
     "modelled, not verified (note N15): layouts[0] = GSM_PCHAN_NONE has period 0 and frames NULL, a frame lookup in it divides by zero (theorem none_layout_excluded); the callers never configure it: l1sched_configure_ts() is only reached from trxcon_fsm.c with a combination derived by l1sched_chan_nr2pchan_config() / l1ctl ccch_mode, none of which yields GSM_PCHAN_NONE, and l1sched_pull_burst() / the Downlink path return early when ts->mf_layout == NULL; these guards are listed, not proved",
     "left out because only one stack implements it: Uplink of PDTCH (firmware mf_gprs_pdtch is a receive-only task), PTCCH (firmware mf_gprs_ptcch is empty), extended BCCH (no lchan in trxcon, the block is CCCH there), FCCH/SCH/RACH (not multiframe tasks in the firmware), neighbour measurement and the TX test task (no logical channel); theorems spec_covers_layouts / spec_covers_tasks / dl_only_channels_have_no_uplink prove that nothing else is left out",
     "the task enable/disable latching of mframe_schedule() (tasks_tgt, safe_fn) is not part of the mapping and is not modelled; the harness runs every task (and seeded task sets) from mframe_reset()+mframe_set(), where tasks == tasks_tgt at every tick",
@@ -28,6 +28,14 @@ MANIFEST = {
 }
 
 CYCLE = 51 * 26 * 8
+# AST-normalised hashes of the modelled functions when the models were written (source-drift
+# detector: a different hash is recorded in the evidence, it is not an alarm; the
+# correspondence below is exhaustive over the cycle in both tiers, so there is nothing to escalate)
+DRIFT_BASE = {
+    "src/target/firmware/layer1/mframe_sched.c": "c7cdde91738e4b93",
+    "src/host/trxcon/src/sched_mframe.c": "562a77089138dc42",
+    "src/host/trxcon/src/sched_trx.c": "1b6a35efdb39894f",
+}
 CHUNK = 104
 TRX_SRC = "src/host/trxcon/src/sched_mframe.c"
 FW_SRC = "src/target/firmware/layer1/mframe_sched.c"
@@ -153,6 +161,8 @@ def correspond(run, corr):
                        (TRX_SRC, ["l1sched_mframe_layout"]),
                        ("src/host/trxcon/src/sched_trx.c", ["l1sched_pull_burst"])):
         run.drift[rel] = vf.src_hash_c(os.path.join(vf.REPO, rel), names)
+        if run.drift[rel] != DRIFT_BASE.get(rel):
+            corr.notes.append("source drift: modelled functions of %s changed since the model was written" % rel)
     # firmware: every task alone over the full cycle (tasks 29..31 have no table: the crash outcome)
     fw_real(run)
     reqs, impl = run.c11_fw_lines
@@ -257,7 +267,7 @@ def oracle(run):
     pval = {n[len("GSM_PCHAN_"):]: v for n, v in tc["pchans"]}
     pname = {v: n for n, v in pval.items()}
     tval = {n[len("MF_TASK_"):]: v for n, v in fw["tasks"]}
-    latency = fw["consts"]["SCHEDULE_LATENCY"]
+    latency = 1          # Calypso DSP: a command given in frame N is executed in frame N+1 (hardware, not the #define)
     sacch_flag = fw["consts"]["MF_F_SACCH"]
     ev = fw_real(run)
     hdr, frames = trx_real(run)
